@@ -223,7 +223,13 @@ class NDIntrinsics(E3Intrinsics):
             v = x.val if isinstance(x, IfaceV) else x
             if isinstance(v, SliceV) and v.obj is not None:
                 eng.log_access(st, "w", v.obj, v.path, ins.get("pos"))
-                st.notes["puts"] = st.notes.get("puts", ()) + ((len(st.notes.get("ev", ())), v.obj, ins.get("pos")),)
+                n = v.len if type(v.len) is int else eng.concretize(st, v.len)
+                data = ()
+                if n:
+                    eng.raw = True
+                    data = tuple(eng.slice_read_all(st, SliceV(v.obj, v.path, v.off, n, v.cap), ins.get("pos")))
+                    eng.raw = False
+                st.notes["puts"] = st.notes.get("puts", ()) + ((len(st.notes.get("ev", ())), v.obj, ins.get("pos"), data),)
             return None
 
         @reg("verif:nd.parse")
@@ -270,7 +276,11 @@ class NDEngine(E3Engine):
         self.raw = False
         forks = []
         puts = [x for k, x in st.notes.get("pool", ()) if k == key]
-        if self.opts.get("e3_pool_reuse", True):
+        mode = self.opts.get("e3_pool_reuse", True)
+        if mode == "havoc" and puts:
+            # one path for "New() or any recycled buffer": a New() buffer whose first bytes are arbitrary (stale data)
+            st.notes["pool_havoc"] = True
+        if mode is True:
             for x in puts:
                 s = st.fork()
                 s.notes["pool"] = tuple((k, y) for k, y in s.notes.get("pool", ()) if not (k == key and y is x))
@@ -283,6 +293,19 @@ class NDEngine(E3Engine):
             if dest is not None:
                 fr.env[dest] = NILIFACE
             return forks
+        if st.notes.get("pool_havoc"):
+            def havoc_dest(s2, res, _dest=dest):
+                v = res[0]
+                sl = v.val if isinstance(v, IfaceV) else v
+                if isinstance(sl, SliceV) and sl.obj is not None:
+                    arr = list(s2.mem[sl.obj])
+                    for i in range(min(len(arr), int(self.opts.get("e3_pool_havoc_len", 16)))):
+                        arr[i] = self.path_fresh(s2, "stale", 8, "pool")
+                    s2.mem[sl.obj] = tuple(arr)
+                if _dest is not None:
+                    s2.top().env[_dest] = v
+            r = super().do_call(st, fr, newf, [], havoc_dest, ins)
+            return forks + (r or [])
         r = super().do_call(st, fr, newf, [], dest, ins)
         return forks + (r or [])
 
